@@ -38,6 +38,9 @@ M = [
  ("c17-minus-resets-key", ["C17"], J+"main.rs", "(false, Char('-')) => jet1090.sort_asc = !jet1090.sort_asc,", "(false, Char('-')) => { jet1090.sort_asc = !jet1090.sort_asc; jet1090.sort_key = SortKey::default() }"),
  ("c17-enter-quits-search-late", ["C17"], J+"main.rs", "(true, Enter) => jet1090.is_search_mode = false,", "(true, Enter) => jet1090.is_search_mode = !jet1090.search_query.is_empty(),"),
  ("c17-search-esc-keeps-mode", ["C17"], J+"main.rs", "                (true, Esc) => {\n                    jet1090.is_search_mode = false;\n", "                (true, Esc) => {\n"),
+ # ---- C06 through decode1090's own loop
+ ("c06-cli-tisb-shared", ["C06"], "crates/decode1090/src/main.rs", "                &cf.aa,\n                aircraft,", "                &ICAO(cf.aa.0 >> 8),\n                aircraft,"),
+ ("c06-cli-timestamp", ["C06"], "crates/decode1090/src/main.rs", "            ExtendedSquitterADSB(adsb) => decode_position(\n                &mut adsb.message,\n                msg.timestamp,", "            ExtendedSquitterADSB(adsb) => decode_position(\n                &mut adsb.message,\n                msg.timestamp.floor(),"),
  # ---- C18 time
  ("c18-leap-19", ["C18"], R+"decode/time.rs", "static LEAP_SECONDS_SINCE_2017: u64 = 18;", "static LEAP_SECONDS_SINCE_2017: u64 = 19;"),
  ("c18-no-week", ["C18"], R+"decode/time.rs", "* ((now_s - GPS_TO_UNIX_OFFSET + LEAP_SECONDS_SINCE_2017) / 86_400 / 7)", "* ((now_s - GPS_TO_UNIX_OFFSET) / 86_400 / 7)"),
